@@ -71,6 +71,9 @@ func (c17) Gen(tier string, seed int64) []fw.Unit {
 	for i := 0; i < npoly; i++ {
 		us = append(us, fw.U("gf.poly", nil, "poly", int64(i%len(c17Fields)), r.Int63(), 500))
 	}
+	for fi := range c17Fields {
+		us = append(us, fw.U("rs.leadingzeros", nil, "leading-zero-check-symbols", int64(fi), r.Int63()))
+	}
 	orders := []string{"asc", "desc", "random", "repeat", "big-first"}
 	for i := 0; i < nrs; i++ {
 		us = append(us, fw.U("rs.history", nil, orders[i%len(orders)], int64(i%len(c17Fields)), r.Int63(), int64(i%len(orders))))
@@ -183,6 +186,47 @@ func (p c17) Exec(c *fw.Ctx, u *fw.Unit) {
 		r := rngFor(u.Int(1), "poly")
 		for i := 0; i < int(u.Int(2)); i++ {
 			c17Poly(c, gf, rf, fs, r)
+		}
+	case "rs.leadingzeros":
+		// data whose check symbols begin with 1, 2, 3 zero symbols (value-directed, found
+		// with the reference arithmetic), and all-zero / single-symbol data
+		r := rngFor(u.Int(1), "rslz")
+		gf := utils.NewGaloisField(fs.pp, fs.size, fs.base)
+		enc := utils.NewReedSolomonEncoder(gf)
+		found := [4]int{}
+		budget := 400000
+		if fs.size >= 1024 {
+			budget = 3000000
+		}
+		for tries := 0; tries < budget && (found[1] < 20 || found[2] < 6); tries++ {
+			k := 2 + r.Intn(12)
+			data := make([]int, 1+r.Intn(12))
+			for i := range data {
+				data[i] = r.Intn(fs.size)
+			}
+			want := rf.RSCheck(data, fs.base, k)
+			z := 0
+			for z < 3 && z < k && want[z] == 0 {
+				z++
+			}
+			if z == 0 || found[z] >= 20 {
+				continue
+			}
+			found[z]++
+			c.Eval()
+			inner := fmt.Sprintf("%s k=%d data=%v expected check=%v", fs.name, k, data, want)
+			var got []int
+			pv, _ := fw.Call(func() { got = enc.Encode(append([]int{}, data...), k) })
+			if pv != nil {
+				c.Violation("rs.Encode/panic/leading-zero-check", fmt.Sprintf("panic: %v", pv), inner, "")
+				continue
+			}
+			if !refdec.PolyEq(append([]int{1}, got...), append([]int{1}, want...)) || len(got) != k {
+				c.Violation("rs.Encode/value/leading-zero-check", fmt.Sprintf("check symbols %v, reference %v", got, want), inner, "")
+				continue
+			}
+			c.Nontrivial("rslz", inner)
+			c.Cover("rs_leading_zero_check_symbols", fmt.Sprintf("%s:%d", fs.name, z))
 		}
 	case "rs.history":
 		c17RS(c, fs, rf, u)
